@@ -26,6 +26,7 @@ AST (JSON-able lists):
 """
 
 CALIBRATED = [
+    "invariants are also checked when a `wait for` / `wait until` / `do .. until` statement completes without having suspended (zero duration)",
     "UNSPECIFIED (tolerated either way): whether record statements of a sub-scenario are still evaluated in the step in which it was stopped",
     "`terminate when` conditions of a scenario are checked after its compose block ran in the same step",
     "`terminate` executed by a behaviour whose scenario is the top-level one ends the simulation at once (no further agents run in that step)",
@@ -199,10 +200,12 @@ class BehaviorModel:
             # take no actions until `limit` steps have elapsed
             while not (w.t - t0 >= limit):
                 yield from self.suspend(())
+            self.check_inv()  # calibrated: also when the statement completes without suspending
         elif k == "waituntil":
             w.ev("waituntil", st[1])
             while not w.cond(st[2]):
                 yield from self.suspend(())
+            self.check_inv()  # calibrated: also when the statement completes without suspending
         elif k in ("do", "dofor", "dountil"):
             w.ev(k, st[1])
             if k == "do":
